@@ -21,7 +21,7 @@ CASES = [
     (r'k\.atomic_bv', r'.*', ['bitvec_stale', 'bitvec_ops']),
     (r'select(_small|_zero_small)\.lookup.*', r'.*', ['select_all', 'select_inv', 'select_big']),
     (r'select_(zero_)?small\.complete.*', r'.*', ['select_all']),
-    (r'select9?\.lookup.*', r'.*', ['select_all', 'select_inv']),
+    (r'select9?\.lookup.*|select\.phase2.*', r'.*', ['select_all', 'select_inv']),
     (r'k\.select_(zero_)?small_complete|select\..*', r'.*', ['select_all']),
     (r'k\.bfv_unaligned', r'.*', ['bfv_unaligned']),
     (r'k\.bfv_apply', r'.*', ['bfv_apply']),
